@@ -73,6 +73,7 @@ P_C09 == C09(Sn, Calls, Rslt)
 P_C10 == C10(Sn, Calls, Rslt)
 P_C11 == C11(Sn, Calls)
 P_C12 == C12(Sn, Calls)
+P_C18S == C18S(Sn, Calls, Rslt)
 P_C13 == C13(Sn, Calls, Rslt)
 P_C14 == C14(Sn, Calls, Rslt)
 P_C15 == C15(Rslt)
